@@ -189,6 +189,15 @@ def run_for_property(ctx, pid):
     }
     if not ctx.quiet:
         print("  self-test: %(breaking_caught)d/%(breaking_total)d breaking variants caught, %(benign_silent)d/%(benign_total)d benign variants silent, %(stale)d stale" % ctx.selftest)
+    # seeded changes on which the check is known to answer "cannot analyse" (exit 2) rather than report a violation:
+    # listed by id with the reason in seeded/ANALYSIS_ERRORS.json; anything else must be reported
+    try:
+        listed = set(json.load(open(os.path.join(VERIF, "seeded", "ANALYSIS_ERRORS.json"))))
+    except (OSError, ValueError):
+        listed = set()
+    for r in res:
+        if r["name"].startswith("seeded:") and r["status"] == "analysis-error" and r["name"][7:] in listed:
+            r["status"] = "analysis-error-listed"
     bad = [r for r in res if r["status"] in ("MISSED", "FALSE-ALARM", "broken-variant") or (r["name"].startswith("seeded:") and r["status"] == "analysis-error")]
     documented = {v["name"] for v in variants_for(pid) if v.get("documented_limit")}
     bad = [r for r in bad if r["name"] not in documented]
